@@ -25,8 +25,9 @@ VARIABLES l,      \* next line to judge
           revoked,\* <<entry, session>> pairs some replica has shown as revoked in this history
           dead,   \* [replica -> ids observed deleted (present and not live, or gone after being present)]
           dirty,  \* (unused)
-          aged    \* the clock jumped by (nearly) a whole changelog window earlier in this history
-vars == <<l, del, rev, cre, seen, skewed, trimmed, revoked, dead, dirty, aged>>
+          aged,   \* the clock jumped by (nearly) a whole changelog window earlier in this history
+          lost    \* ids whose deletion was known only to a replica that was then refreshed (discarded by the refresh)
+vars == <<l, del, rev, cre, seen, skewed, trimmed, revoked, dead, dirty, aged, lost>>
 
 \* ------------------------------------------------------------------ projection helpers
 Get(f, r) == IF r \in DOMAIN f THEN f[r] ELSE {}
@@ -92,7 +93,17 @@ Jump(i)  == i > 1 /\ ~IsInit(i) /\ Rec[i].now - Rec[i - 1].now >= ChangelogWindo
 Dirty2 == FALSE
 Aged2  == IF IsInit(l) THEN FALSE ELSE aged \/ Jump(l)
 Multi(c) == {c[k] : k \in {j \in 1..Len(c) : \E m \in 1..Len(c) : m # j /\ c[m] = c[j]}}
-Tracked == Del2 \ (Rev2 \cup Multi(Cre2))      \* deletions the property speaks about unconditionally
+\* A refresh replaces the consumer's whole database with the supplier's: changes the consumer had not yet supplied to
+\* anyone are discarded with it.  C09 itself prescribes the refresh for a replica that was out of contact for longer
+\* than the changelog window, so a deletion that only such a replica knew (after the refresh the entry is live on the
+\* refreshed replica and NO replica holds it deleted any more) is not a deletion the property can still speak about.
+\* (LiveAt / Present are defined above; evaluated on the line being judged.)
+LostNow == IF Rec[l].op = "refresh" /\ OkRes(l)
+           THEN {x \in Del2 : /\ x \in Get(dead, Rec[l].to) /\ LiveAt(l, Rec[l].to, x)
+                              /\ \A q \in Reps(l) : ~(Present(l, q, x) /\ ~LiveAt(l, q, x))}
+           ELSE {}
+Lost2 == IF IsInit(l) THEN {} ELSE lost \cup LostNow
+Tracked == Del2 \ (Rev2 \cup Multi(Cre2) \cup Lost2)      \* deletions the property speaks about unconditionally
 
 \* ------------------------------------------------------------------ C19
 UniqueOn(i, r) ==
@@ -164,13 +175,13 @@ RangeDecision(i) ==
 
 \* ------------------------------------------------------------------ stepping
 Init == l = 1 /\ del = {} /\ rev = {} /\ cre = <<>> /\ seen = <<>> /\ dead = <<>> /\ skewed = FALSE /\ revoked = {} /\ trimmed = FALSE
-        /\ dirty = FALSE /\ aged = FALSE
+        /\ dirty = FALSE /\ aged = FALSE /\ lost = {}
 
 Next ==
   /\ l <= Len(Rec)
   /\ l' = l + 1
   /\ del' = Del2 /\ rev' = Rev2 /\ cre' = Cre2 /\ skewed' = Skew2 /\ revoked' = Revoked2 /\ trimmed' = Trim2
-  /\ dirty' = Dirty2 /\ aged' = Aged2
+  /\ dirty' = Dirty2 /\ aged' = Aged2 /\ lost' = Lost2
   /\ seen' = [r \in Reps(l) |-> (IF IsInit(l) THEN {} ELSE Get(seen, r)) \cup DOMAIN Ents(l, r)]
   /\ dead' = [r \in Reps(l) |->
                 (IF IsInit(l) THEN {} ELSE Get(dead, r))
@@ -188,7 +199,8 @@ Judge == l <= Len(Rec) =>
   /\ (Q(l, ConvergedCore(l) => ConvergedDerived(l)) \/ PrintT(<<"L1FAIL", "C08", l, "recycled-entry-stale-memberof">>))
   /\ (NoResurrectionStep(l) \/ PrintT(<<"L1FAIL", "C09", l, "resurrected">>))
   /\ (NoLiveDeletedAtQuiescence(l) \/ PrintT(<<"L1FAIL", "C09", l,
-          IF Trim2 THEN "deletion-never-delivered-after-trim" ELSE "deleted-entry-live-at-quiescence">>))
+          IF Trim2 THEN "deletion-never-delivered-after-trim"
+          ELSE IF Aged2 THEN "deletion-dropped-after-lag-beyond-window" ELSE "deleted-entry-live-at-quiescence">>))
   /\ (TombstoneTerminal(l)  \/ PrintT(<<"L1FAIL", "C09", l, "tombstone-changed">>))
   /\ (RefusalInert(l)       \/ PrintT(<<"L1FAIL", "C09", l, "refusal-changed-consumer">>))
   /\ (RangeDecision(l)      \/ PrintT(<<"L1FAIL", "C09", l, "range-decision">>))
